@@ -172,6 +172,7 @@ class Engine:
         self.interest = set()    # callee names whose calls are logged
         self.step_limit = 30_000_000
         self.use_cache = True
+        self.trace_kinds = set()
         self.visited = {}
         self.dropped = 0
         self.discr_hint = {}
@@ -182,6 +183,8 @@ class Engine:
     # ------------------------------------------------------------------ log
     def event(self, st, kind, **payload):
         self.log.append(dict(kind=kind, asm=dict(st.asm), stack=st.stack(), **payload))
+        if kind in self.trace_kinds:
+            st.trace = st.trace + ((kind, tuple(sorted(payload.items(), key=lambda kv: kv[0]))),)
 
     # --------------------------------------------------------------- memory
     def getroot(self, st, root):
@@ -766,6 +769,8 @@ class Engine:
                     return None
         if s0.pending is not None:
             return None
+        if any(s.trace != s0.trace for s in states[1:]):
+            return None
         allkeys = set()
         for s in states:
             allkeys |= s.mem.keys()
@@ -894,7 +899,7 @@ class Engine:
             return
         blocks, assigned = info[fr.block]
         lid = (fr.body.path, fr.block)
-        scal = [l for l in sorted(assigned) if fr.body.locals[l].get('prim') and fr.body.locals[l]['s'] in SCALARS]
+        scal = [l for l in sorted(assigned) if self.loop_abstractable(fr.body.locals[l])]
         if fr.block not in fr.loops:
             inits = {l: st.mem[('L', fr.fid, l)] for l in scal if ('L', fr.fid, l) in st.mem}
             fr.loops[fr.block] = [(self.signature(st), inits, frozenset(st.asm), False)]
@@ -907,6 +912,11 @@ class Engine:
                 root = ('L', fr.fid, l)
                 if root in st.mem:
                     cur = st.mem[root]
+                    if isinstance(cur, tuple) and cur and cur[0] in ('vec', 'vecsum', 'map', 'iter', 'refcell', 'ref', 'refguard',
+                                                                     'closure', 'uninit'):
+                        continue
+                    if not pure_data(cur):
+                        continue
                     if cur != inits.get(l, cur) or (isinstance(cur, tuple) and cur and cur[0] == 'loopval'):
                         st.mem[root] = ('loopval', (lid, l), inits.get(l))
             # conditions on loop-variant terms do not carry over to the next iteration
@@ -921,6 +931,19 @@ class Engine:
             self.event(st, 'incomplete', what='loop bound reached', fn=fr.body.path)
             raise PathEnd('loop-bound')
         seen.append((sig, inits, frozenset(st.asm), symbolic))
+
+    def loop_abstractable(self, ty):
+        """locals whose loop-carried value may be abstracted to a `loopval` term: scalars and plain-data ADTs
+        (not collections, references, iterators, closures)"""
+        if ty.get('prim'):
+            return ty['s'] in SCALARS
+        adt = ty.get('adt')
+        if adt:
+            if adt.startswith(('std::vec::', 'std::collections::', 'std::string::', 'std::iter::', 'std::slice::', 'std::ops::Range',
+                               'std::option::', 'std::result::', 'std::cell::', 'std::sync::', 'std::thread::', 'std::boxed::')):
+                return False
+            return True
+        return False
 
     def signature(self, st):
         """abstract state at a loop header: memory reachable from the live
@@ -1090,6 +1113,8 @@ class Engine:
     def drop_value(self, st, v):
         if isinstance(v, tuple) and v and v[0] == 'refguard':
             self.release(st, v)
+        if isinstance(v, tuple) and v and v[0] == 'sender':
+            self.event(st, 'sender-drop', sender=v)
 
     def release(self, st, g):
         try:
